@@ -248,8 +248,10 @@ def run_longrefs(c):
 
 
 def cases(rng, tier):
-    for _ in range({"quick": 1, "thorough": 6}.get(tier, 1)):
-        yield gen_longrefs(rng)
+    for i in range({"quick": 2, "thorough": 6}.get(tier, 1)):
+        c = gen_longrefs(rng)
+        c["outlier"] = i % 2 == 0
+        yield c
     if tier == "thorough":
         for L in WINDOW_SIZES:
             yield gen_long_window(rng, L)
